@@ -39,6 +39,17 @@ struct Rational {
 	friend bool operator == (const Rational a, const Rational b) noexcept { return a.n == b.n && a.d == b.d; }
 };
 
+// the machine's utility type: exact rationals, or (fixture config utility = "float") the library's default float
+#ifdef FX_FLOAT_UTILITY
+using UtilT = float;
+inline UtilT toUtil(const Rational& r) noexcept { return (float) r.n / (float) r.d; }
+inline void utilPair(const UtilT v, long& n, long& d) noexcept { d = 16777216; n = (long) ((double) v * 16777216.0 + (v >= 0 ? 0.5 : -0.5)); }
+#else
+using UtilT = Rational;
+inline UtilT toUtil(const Rational& r) noexcept { return r; }
+inline void utilPair(const UtilT& v, long& n, long& d) noexcept { n = (long) v.n; d = (long) v.d; }
+#endif
+
 //------------------------------------------------------------------------------
 // payload types: token t (1..) <-> value; 0 = no payload
 
@@ -62,7 +73,7 @@ struct Ctx { Probe* probe = nullptr; };
 // scripted generator: hands out the numbers of the script of the call in progress, then 0
 // (stateless, so that a copy of an instance - which shares its source's generator reference - behaves the same)
 struct ScriptedRng {
-	inline Rational next() noexcept;
+	inline UtilT next() noexcept;
 };
 inline Probe*& currentProbe() { static Probe* p = nullptr; return p; }
 
